@@ -263,12 +263,13 @@ class DynJetFunction:
         aux = None
         if getattr(y, 'eta_aux', False):
             aux = np.array([Poly.var(nm) for nm in y.eta], dtype=object).reshape(y.a.shape)
+        track = STATE['grad'] or STATE['transparent']     # without grad the result is detached anyway: skip the expansion
         out = np.empty((B,) + self.out, dtype=object)
         pvals = []
         for h in self.params:
             cur = Poly.lift(h.a.reshape(-1)[0])
             base = el_detach(cur)
-            pvals.append((base, _powers(cur - base)))
+            pvals.append((base, _powers(cur - base) if track else [Poly.const(1)]))
         for b in range(B):
             bases, pows = [], []
             for k in range(self.d):
@@ -277,7 +278,7 @@ class DynJetFunction:
                 if aux is not None:
                     cur = cur + aux[b, k]
                 bases.append(base)
-                pows.append(_powers(cur - base))
+                pows.append(_powers(cur - base) if track else [Poly.const(1)])
             for comp in itertools.product(*[range(n) for n in self.out]):
                 if not self.ydep:
                     use = []
